@@ -76,6 +76,9 @@ func (c06) Gen(rt *rapid.T, thorough bool) any {
 			if s.Producers[p][i].Raw && s.Producers[p][i].Size < 0 {
 				s.Producers[p][i].Size = 3 // every item needs an identity here
 			}
+			if s.Producers[p][i].Raw && rapid.IntRange(0, 5).Draw(rt, "big_raw") == 0 {
+				s.Producers[p][i].Size = 40000 // size must not change how a raw write is queued
+			}
 			if !s.Producers[p][i].Raw {
 				// all enabled (the logger takes everything) but of different severities:
 				// no policy may treat items differently by level
@@ -212,6 +215,9 @@ func (c06) runSeq(x *Exec, s *AsyncScn) {
 			seq := n
 			n++
 			aop := AOp{Lvl: []string{"INFO", "ERROR", "TRACE", "FATAL", "WARN"}[(seq*7+k)%5], Raw: op == 1, Size: 3}
+			if op == 1 && (seq+k)%3 == 0 {
+				aop.Size = 40000
+			}
 			x.Sim.Spawn(fmt.Sprintf("client-op%d", k), func() { all = append(all, sys.submit(0, seq, aop, nil)) })
 			x.Sim.Run(nil)
 			m.submit(fmt.Sprintf("t0s%d", seq))
@@ -439,8 +445,8 @@ func (c06) runConc(x *Exec, s *AsyncScn) {
 		// worker takes: the k-th channel receive of the worker happened between the step it
 		// resumed from the pre-receive yield and the step it resumed from the post-receive yield
 		var pres, posts []int
-		for _, w := range x.Sim.Watched() {
-			if !strings.HasPrefix(w.Name, "go@") {
+		for wi, w := range x.Sim.Watched() {
+			if wi < sys.watchBase || !strings.HasPrefix(w.Name, "go@") {
 				continue
 			}
 			if strings.HasSuffix(w.Site, ":range") {
